@@ -568,8 +568,11 @@ def ratio_guards(F, R):
         out_cells = [c for c in fl.m.touched if c.split('.')[-1] == 'out']
         ok = False
         detail = 'no guarded ratio found'
-        for cell in out_cells:
-            t = fl.m.up_fields[cell]
+        sources = [(cell, fl.m.up_fields[cell]) for cell in out_cells]
+        if n == 'Rsi':
+            # the reported value, wherever it is computed (cached by update() or derived in last())
+            sources.append(('<last>', fl.m.last_after_update()))
+        for cell, t in sources:
             for x in subterms(t):
                 if x[0] == 'phi':
                     c = x[1]
@@ -592,3 +595,69 @@ def ratio_guards(F, R):
                                 ok = (zero_branch == ('in', cell) or zero_branch == ('some', ('in', cell))) and c[1] in ('eq', 'ne')
                                 detail = 'ratio formed only when cu+cd != 0, previous output held otherwise' if ok else 'flat-window branch is %s, not a hold' % tstr(zero_branch)[:40]
         R.ob('G-ratio', n, ok, detail, v.file)
+
+
+_sumfacts = {}
+
+
+def buffer_sum_facts(F, v):
+    """Derived (not assumed) facts  A >= 0  and  A >= front(Q)  for a float cell A that is provably the sum of the
+    elements stored in buffer Q: A and Q start at 0 / empty, every delivering step pushes a value w onto Q and adds the same
+    term w to A, and an eviction pops front(Q) and subtracts exactly front(Q) from A -- and every pushed w is >= 0 by
+    interval analysis. Returns a list of condition terms over the entry state."""
+    key = (id(F), v.name)
+    if key in _sumfacts:
+        return _sumfacts[key]
+    out = []
+    _sumfacts[key] = out
+    try:
+        fl = flow(F, v)
+    except Exception:
+        return out
+    from .fsign import FSign
+    inits = fl.m.inits()
+    for q, info in fl.queues.items():
+        V, E = info.get('V'), info.get('E')
+        if V is None or info.get('shape') != 'pop-then-push':
+            continue
+        if not FSign([]).rng(V).nonneg():
+            continue
+        for a in float_cells(fl):
+            if a in fl.B.buffers or a == q:
+                continue
+            t = fl.m.up_fields.get(a)
+            if t is None:
+                continue
+            try:
+                cs = fl.cell_cases(a, deep=True)
+            except OverflowError:
+                continue
+            good = True
+            seen = 0
+            for conds, leaf in cs:
+                if not fl.delivering(conds):
+                    if leaf != ('in', a):
+                        good = False
+                    continue
+                st = signed_terms(fl.resolve(leaf, conds))
+                selfs = [x for x in st if x[1] == ('in', a)]
+                rest = sorted([x for x in st if x[1] != ('in', a)], key=str)
+                evicting = any(g in conds for g in fl.pop_guards()) or info['G'] == TRUE
+                want = [(1, fl.resolve(V, conds))] + ([(-1, E)] if evicting and E is not None else [])
+                if len(selfs) != 1 or selfs[0][0] != 1 or rest != sorted(want, key=str):
+                    good = False
+                    break
+                seen += 1
+            if not good or not seen:
+                continue
+            # zero / empty at construction
+            ok_init = bool(inits)
+            for nm, init, pre in inits:
+                ia, iq = init.get(a), init.get(q)
+                if not (ia is not None and ia[0] == 'lit' and ia[1] == 0 and iq is not None and iq[0] == 'seq_new'):
+                    ok_init = False
+            if not ok_init:
+                continue
+            out.append(op('ge', ('in', a), lit(0.0)))
+            out.append(op('ge', ('in', a), ('front', ('in', q))))
+    return out
